@@ -42,6 +42,13 @@ CONFIGS = {
     # sanitised (recover: diagnostics are logged, aborts only on ASan errors)
     "asan": dict(cc="clang", flags="-O1 -g -std=c11 -fsanitize=address,undefined -fno-omit-frame-pointer"),
     "native": dict(cc="gcc", flags="-O2 -g -DNDEBUG -std=c11 -march=native -O3"),
+    # ThreadSanitizer build for the --threads mode of the driver
+    "tsan": dict(cc="clang", flags="-O1 -g -std=c11 -fsanitize=thread -fno-omit-frame-pointer"),
+    # allocation-failure injection: malloc family wrapped at link time
+    "oom": dict(cc="gcc", flags="-O2 -g -DNDEBUG -std=c11 -O3 -DVDRV_WRAP_ALLOC "
+                "-Wl,--wrap=malloc,--wrap=calloc,--wrap=realloc,--wrap=free"),
+    # for valgrind memcheck (no sanitizer, debug info, light optimisation)
+    "vg": dict(cc="gcc", flags="-O1 -g -DNDEBUG -std=c11"),
 }
 
 ALLOWED_AXIOMS = {
@@ -124,21 +131,26 @@ def check_properties(prop_file, timeout=900):
                         "-w", "-notation-overridden,-deprecated-hint-without-locality",
                         "theories/%s.v" % prop_file], cwd=COQ, timeout=timeout)
     results = []
+    failed_at = None
+    fail_note = ""
     if rc != 0:
-        # find the theorem enclosing the error line
+        # find the theorem enclosing the error line; theorems before it were
+        # checked (their Print Assumptions output is in `out`), later ones not
         m = re.search(r'line (\d+)', err)
-        bad = None
         if m:
             ln = int(m.group(1))
             lines = text.split("\n")
             for i in range(min(ln, len(lines)) - 1, -1, -1):
                 mm = re.match(r"(Theorem|Example)\s+(\w+)", lines[i])
                 if mm:
-                    bad = mm.group(2)
+                    failed_at = mm.group(2)
                     break
-        for t in theorems:
-            results.append((t, False, [], "coqc failed" + (" at " + bad if bad else "") + ": " + err.strip()[-400:]))
-        return results, err
+        fail_note = "coqc failed" + (" at " + failed_at if failed_at else "") + ": " + err.strip()[-400:]
+        if failed_at is None or failed_at not in theorems:
+            # failure outside a Theorem (import, Example): nothing is established
+            for t in theorems:
+                results.append((t, False, [], fail_note))
+            return results, err
     # split Print Assumptions output: blocks appear in order
     blocks = []
     cur = None
@@ -153,7 +165,15 @@ def check_properties(prop_file, timeout=900):
             m = re.match(r"^(\S+)\s*:", line)
             if m:
                 cur.append(m.group(1))
+    reached_failure = False
     for i, t in enumerate(theorems):
+        if failed_at is not None and t == failed_at:
+            reached_failure = True
+            results.append((t, False, [], fail_note))
+            continue
+        if reached_failure:
+            results.append((t, False, [], "not checked: an earlier theorem of this file (%s) failed" % failed_at))
+            continue
         if i < len(blocks):
             ax = blocks[i]
             bad = [a for a in ax if a not in ALLOWED_AXIOMS]
@@ -278,7 +298,7 @@ def build_c_driver(config="pinned", extra_flags="", workdir=None):
     return os.path.join(d, "drv"), d
 
 
-def run_driver(binary, case_lines, timeout=1800, env=None):
+def run_driver(binary, case_lines, timeout=1800, env=None, args=(), wrapper=()):
     """Run a driver on the given case lines; returns list of output lines."""
     d = tmp_root()
     fd, path = tempfile.mkstemp(prefix="cases-", suffix=".txt", dir=d)
@@ -288,8 +308,8 @@ def run_driver(binary, case_lines, timeout=1800, env=None):
         e = dict(os.environ)
         if env:
             e.update(env)
-        p = subprocess.run([binary, path], stdout=subprocess.PIPE, stderr=subprocess.PIPE,
-                           text=True, timeout=timeout, env=e)
+        p = subprocess.run(list(wrapper) + [binary] + list(args) + [path], stdout=subprocess.PIPE,
+                           stderr=subprocess.PIPE, text=True, timeout=timeout, env=e)
         outs = p.stdout.split("\n")
         if outs and outs[-1] == "":
             outs.pop()
@@ -461,6 +481,9 @@ class Spec:
                     return r
         return "other"
 
+    def customs(self):
+        return [(name, p["custom"]) for name, p in self.parts if p.get("custom")]
+
     def search(self, rng, divergent):
         for name, p in self.parts:
             f = p.get("search")
@@ -483,6 +506,59 @@ def load_spec(prop):
     if not parts:
         raise SystemExit("no checks/parts/*.py entry for property %s" % prop)
     return Spec(prop, parts)
+
+
+class CustomCtx:
+    """What a part's custom(ctx) runner may use."""
+
+    def __init__(self, check, drivers, mdrv, rng):
+        self.check = check
+        self.tier = check.tier
+        self.seed = check.seed
+        self.drivers = drivers
+        self.mdrv = mdrv
+        self.rng = rng
+
+    def build(self, config, extra=""):
+        if config in self.drivers:
+            return self.drivers[config]
+        b, d = build_c_driver(config, extra)
+        self.check.tmpdirs.append(d)
+        self.drivers[config] = b
+        return b
+
+    def run_c(self, binary, cases, args=(), env=None, wrapper=(), timeout=3000):
+        return run_driver(binary, cases, timeout=timeout, env=env, args=args, wrapper=wrapper)
+
+    def run_model(self, cases):
+        return run_driver(self.mdrv, cases)
+
+    def cases_from(self, prop, parts=None, limit=None, tier=None):
+        """cases generated by other parts' generators for property `prop`"""
+        sp = load_spec(prop)
+        out, seen = [], set()
+        for name, p in sp.parts:
+            if parts and name not in parts:
+                continue
+            g = p.get("generate")
+            if not g:
+                continue
+            got = 0
+            for line in g(random.Random(self.rng.getrandbits(48)), tier or "quick"):
+                if line not in seen:
+                    seen.add(line)
+                    out.append(line)
+                    got += 1
+                    if limit and got >= limit:
+                        break
+        return out
+
+    def save(self, name, text):
+        d = os.path.join(VERIF, "replays")
+        os.makedirs(d, exist_ok=True)
+        p = os.path.join(d, name)
+        open(p, "w").write(text)
+        return p
 
 
 class Check:
@@ -595,7 +671,7 @@ class Check:
         cov["input_distribution"] = dist
 
         # 5. run model once, each C config
-        mrc, mout, merr = run_driver(mdrv, cases)
+        mrc, mout, merr = run_driver(mdrv, cases) if cases else (0, [], "")
         if mrc != 0 or len(mout) != len(cases):
             raise RuntimeError("model driver failed rc=%s lines=%d/%d: %s" % (mrc, len(mout), len(cases), merr[-2000:]))
         nontrivial = set()
@@ -618,7 +694,9 @@ class Check:
         divergences = []      # (config, case, c_line, m_line)
         oracle_fail = []      # (config, case, msg, c_line)
         faults = 0
-        for cfgname, binary in drivers.items():
+        for cfgname, binary in list(drivers.items()):
+            if not cases:
+                break
             env = {}
             if cfgname == "asan":
                 env = {"ASAN_OPTIONS": "detect_leaks=0:abort_on_error=1:handle_segv=0:handle_abort=0:allocator_may_return_null=1",
@@ -656,6 +734,20 @@ class Check:
         cov["oracle_failures"] = len(oracle_fail)
         cov["faults_observed"] = faults
         cov["configs"] = list(drivers.keys())
+
+        # 6b. custom runners of the parts (threads, purity, allocation plans …)
+        ctx = CustomCtx(self, drivers, mdrv, rng)
+        for cname, fn in spec.customs():
+            info = fn(ctx) or {}
+            cov["evaluations"] += int(info.pop("evaluations", 0))
+            for (cfgname, c, msg, co) in info.pop("failures", []):
+                oracle_fail.append((cfgname, c, msg, co))
+            cov.setdefault("custom", {})[cname] = info
+        cov["oracle_failures"] = len(oracle_fail)
+        if not cov.get("samples") and cov.get("custom"):
+            cov["samples"] = [v.get("sample") for v in cov["custom"].values() if v.get("sample")] or ["(custom runner)"]
+        if cov["distinct_nontrivial"] == 0:
+            cov["distinct_nontrivial"] = sum(int(v.get("distinct_nontrivial", 0)) for v in cov.get("custom", {}).values())
 
         # 7. verdict
         reported = set()
